@@ -1,22 +1,21 @@
 (* Properties/C16.v -- the attribution tracker is total, bounded and conservative.
    Statements only; every proof is `exact <lemma>` followed by Print Assumptions.
 
-   Full-strength statement (for ANY previous text, previous attributions and new text, with the
-   diff facts of the real compute_diffs / detect_moves):
-     update never panics; every output range r satisfies start <= end <= |new|;
-     bytes of Equal segments keep their (author, ts) cover; new text belongs to the reporting author;
-     an identical text keeps its line attributions; line -> char -> line keeps the AI lines.
-   It is FALSE of the faithful model for four classes of inputs, each with a witness whose facts
-   come from a real run (C16_bounded_refuted / C16_equal_keeps_refuted: a moved block whose
-   whitespace changed, class C16-K1; C16_identity_tie_refuted: class C16-K2;
-   C16_identity_marker_refuted: class C16-K3; C16_update_inverted_panics: class C16-K4).
-   The theorems below carry exactly the hypotheses their proofs use:
+   The model describes the tracker WITH the repairs of the former classes C16-K1 .. C16-K4
+   (per-line move mappings clamped to their target; position-only stable order in
+   merge_attributions and at the boundary of update_attributions; zero-length markers carried
+   through Equal segments; saturating length comparison).  The statements that were refuted
+   for those classes are now the positive theorems below, and the old witnesses are the
+   regression lemmas C16_regression_*, whose facts and outputs come from real runs.
+   The theorems carry exactly the hypotheses their proofs use:
      wf_diff    the script re-concatenates to the two texts (C16_valid_script); only C16_bounded
                 needs it, to speak about |new|
-     moves_fit  each move mapping names an existing insertion and its source text fits there
-                (true of real facts outside class K1; monitored)
-     attr_ordered on the priors (start <= end) for totality of update (class K4 otherwise)
-     valid_utf8 of the content for attributions_to_line_attributions. *)
+     moves_fit  each move mapping names an existing insertion and its target range ends inside it
+                (implied by the monitored contract moves_ok: C16_moves_ok_fit)
+     valid_utf8 of the content for attributions_to_line_attributions.
+   Still open (tested by the oracle, not proved): C16_identity_keeps_lines for arbitrary priors
+   (proved here for merge-normal forms: C16_identity_fixpoint), C16_boundaries, C16_ws_reformat
+   (known class C16-K5, a property of the line-level diff, which is an oracle in this slice). *)
 From Coq Require Import List NArith Bool.
 From Verif Require Import Base.Str Model.Tracker Proofs.TrackerProofs.
 Import ListNotations.
@@ -37,25 +36,15 @@ Theorem C16_bounded : forall old new attrs author ts f out,
 Proof. exact bounded. Qed.
 Print Assumptions C16_bounded.
 
-Theorem C16_bounded_refuted :
-  exists old new attrs author ts f out,
-    wf_diff old new f = true /\ moves_ok f = true /\ forallb attr_ordered attrs = true /\
-    valid_utf8 old = true /\ valid_utf8 new = true /\
-    update attrs author ts f = Ok out /\ exists a, In a out /\ blen new < a_end a.
-Proof. exact bounded_refuted. Qed.
-Print Assumptions C16_bounded_refuted.
+Theorem C16_moves_ok_fit : forall f, moves_ok f = true -> moves_fit f = true.
+Proof. exact moves_ok_fit. Qed.
+Print Assumptions C16_moves_ok_fit.
 
+(* for ANY priors: out of range, zero-length, start > end *)
 Theorem C16_update_total : forall attrs author ts f,
-  moves_fit f = true -> forallb attr_ordered attrs = true -> update attrs author ts f <> Panic.
+  moves_fit f = true -> update attrs author ts f <> Panic.
 Proof. exact update_total. Qed.
 Print Assumptions C16_update_total.
-
-Theorem C16_update_inverted_panics :
-  exists old new attrs author ts f,
-    wf_diff old new f = true /\ moves_ok f = true /\ moves_fit f = true /\
-    update attrs author ts f = Panic.
-Proof. exact update_inverted_panics. Qed.
-Print Assumptions C16_update_inverted_panics.
 
 (* never slices off a char boundary, for ANY attributions *)
 Theorem C16_to_lines_total : forall c attrs, valid_utf8 c = true -> to_lines attrs c <> Panic.
@@ -95,15 +84,6 @@ Theorem C16_equal_keeps : forall attrs author ts f out pre d post,
 Proof. exact equal_keeps. Qed.
 Print Assumptions C16_equal_keeps.
 
-Theorem C16_equal_keeps_refuted :
-  exists old new attrs author ts f out pre d post,
-    wf_diff old new f = true /\ moves_ok f = true /\ f_segs f = pre ++ (DEq, d) :: post /\
-    update attrs author ts f = Ok out /\
-    exists k au t, k < blen d /\ covers out (blen (cat_new pre) + k) au t /\
-                   ~ covers attrs (blen (cat_old pre) + k) au t.
-Proof. exact equal_keeps_refuted. Qed.
-Print Assumptions C16_equal_keeps_refuted.
-
 (* new text belongs to the reporting author: byte k of an Insert segment that is not inside a move
    target is covered by (author, ts) whenever the insertion has move targets, contains a newline
    or intersects a substantive range *)
@@ -118,32 +98,56 @@ Theorem C16_new_is_authors : forall attrs author ts f out pre d post,
 Proof. exact new_is_authors. Qed.
 Print Assumptions C16_new_is_authors.
 
-(* an identical text does NOT always keep its line attributions *)
-Theorem C16_identity_tie_refuted :
-  exists old attrs author ts f,
-    wf_diff old old f = true /\ f_segs f = [(DEq, old)] /\ f_moves f = [] /\
-    forallb attr_ordered attrs = true /\
-    res_lines_eqb (update_lines old attrs author ts f) (to_lines attrs old) = false.
-Proof. exact identity_tie_refuted. Qed.
-Print Assumptions C16_identity_tie_refuted.
+(* a zero-length deletion marker lying in an Equal segment moves along with it *)
+Theorem C16_equal_keeps_markers : forall attrs author ts f out pre d post a,
+  f_segs f = pre ++ (DEq, d) :: post ->
+  update attrs author ts f = Ok out ->
+  In a attrs -> a_start a = a_end a ->
+  blen (cat_old pre) <= a_start a -> a_start a < blen (cat_old pre) + blen d ->
+  In (mkAttr (blen (cat_new pre) + (a_start a - blen (cat_old pre)))
+             (blen (cat_new pre) + (a_start a - blen (cat_old pre))) (a_author a) (a_ts a)) out.
+Proof. exact equal_keeps_markers. Qed.
+Print Assumptions C16_equal_keeps_markers.
 
-Theorem C16_identity_marker_refuted :
-  exists old attrs author ts f,
-    wf_diff old old f = true /\ f_segs f = [(DEq, old)] /\ f_moves f = [] /\
-    forallb attr_ordered attrs = true /\
-    res_lines_eqb (update_lines old attrs author ts f) (to_lines attrs old) = false.
-Proof. exact identity_marker_refuted. Qed.
-Print Assumptions C16_identity_marker_refuted.
-
-(* what does hold for an identical text (weaker than C16_identity_keeps_lines, which is tested but
-   not proved): a list in merge-normal form with non-empty ranges inside the text -- the shape of
-   every marker-free output of update -- is returned unchanged, so its line attributions are too *)
+(* an identical text (weaker than C16_identity_keeps_lines, which is tested but not proved): a list
+   in merge-normal form whose entries lie in the text (non-empty ranges, or markers before its end)
+   -- the shape of every output of update -- is returned unchanged, so its line attributions are too *)
 Theorem C16_identity_fixpoint : forall old attrs author ts,
-  merge attrs = attrs ->
-  Forall (fun a => a_start a < a_end a /\ a_end a <= blen old) attrs ->
+  merge attrs = attrs -> Forall (in_text (blen old)) attrs ->
   update attrs author ts (mkFacts [(DEq, old)] [] []) = Ok attrs.
 Proof. exact identity_fixpoint. Qed.
 Print Assumptions C16_identity_fixpoint.
+
+(* regression witnesses of the repaired classes; facts and outputs from real runs *)
+Theorem C16_regression_moved_block :
+  wf_diff wK1b_old wK1b_new wK1b_facts = true /\ moves_ok wK1b_facts = true /\
+  update wK1b_attrs wK1b_author 100 wK1b_facts = Ok wK1b_out /\
+  forallb (fun a => a_end a <=? blen wK1b_new) wK1b_out = true /\
+  res_lines_eqb (to_lines wK1b_out wK1b_new)
+    (Ok [mkLattr 4 4 [97; 105; 95; 49] None; mkLattr 5 5 [97; 105; 95; 50] None; mkLattr 6 6 [97; 105; 95; 49] None]) = true.
+Proof. exact regression_moved_block. Qed.
+Print Assumptions C16_regression_moved_block.
+
+Theorem C16_regression_inverted_prior :
+  forallb attr_ordered wK4_attrs = false /\ update wK4_attrs wK4_author 100 wK4_facts = Ok wK4_out.
+Proof. exact regression_inverted_prior. Qed.
+Print Assumptions C16_regression_inverted_prior.
+
+Theorem C16_regression_tie :
+  update wK2_attrs wK2_author 100 wK2_facts = Ok wK2_attrs /\
+  res_lines_eqb (update_lines wK2_old wK2_attrs wK2_author 100 wK2_facts) (to_lines wK2_attrs wK2_old) = true /\
+  update wK2b_attrs wK2b_author 100 wK2b_facts = Ok wK2b_attrs /\
+  res_lines_eqb (update_lines wK2b_old wK2b_attrs wK2b_author 100 wK2b_facts) (to_lines wK2b_attrs wK2b_old) = true.
+Proof. exact regression_tie. Qed.
+Print Assumptions C16_regression_tie.
+
+Theorem C16_regression_marker :
+  update wK3_attrs wK3_author 100 wK3_facts = Ok wK3_attrs /\
+  res_lines_eqb (update_lines wK3_old wK3_attrs wK3_author 100 wK3_facts) (to_lines wK3_attrs wK3_old) = true /\
+  update wK3b_attrs wK3b_author 100 wK3b_facts = Ok wK3b_out /\
+  In (mkAttr 8 8 [97; 105; 95; 50] 9) wK3b_out.
+Proof. exact regression_marker. Qed.
+Print Assumptions C16_regression_marker.
 
 (* non-vacuity: the facts of a real run with a moved block meet every contract *)
 Example C16_nonvacuous :
